@@ -98,6 +98,48 @@ Theorem C11_inlined_paths_safe : forall f p b r fuel b', In f skeleton -> In p (
 Proof. exact today_inlined_safe. Qed.
 Print Assumptions C11_inlined_paths_safe.
 
+(* LOOPS, for every iteration count.  A loop is given by the events [pre] up to its head and the event
+   lists [conts] of its complete iterations.  If every iteration, started in the discipline state of the
+   head, ends in a state at least as permissive as that one ([loop_ok]: same ownership everywhere, the
+   loop's temporaries given back), then a path that passes the head stays disciplined -- hence safe and
+   balanced under every environment -- with ANY sequence of iterations inserted there.  (Induction over
+   the list of iterations, Proofs/OwnInline.v.) *)
+Theorem C11_loops_safe_for_any_count : forall strict ps pre conts rest r,
+  loop_ok strict ps pre conts = true ->
+  Dc strict ps (pre ++ rest) r = true ->
+  forall bs, Forall (fun b => In b conts) bs ->
+  Dc strict ps (pre ++ concat bs ++ rest) r = true /\
+  forall orc s k, init_ok ps s = true ->
+  match exec strict orc (expand (pre ++ concat bs ++ rest) ++ [EReturn r]) s k with
+  | Done s' => balanced ps s' = true
+  | Infeasible => True
+  | Running _ _ => False
+  | Fault _ => False
+  end.
+Proof.
+  intros. split; [eapply loops_any_count; eauto | intros; eapply loops_safe; eauto].
+Qed.
+Print Assumptions C11_loops_safe_for_any_count.
+
+(* every loop extracted from today's source (the for-loop of _generations_tuple, the hook loop of
+   IB__adapt__ on each way of reaching it) satisfies the invariant form, so its function's paths are safe
+   with any number of iterations *)
+Theorem C11_todays_loops_safe :
+  forallb (fun l => loop_ok true (fst (fst l)) (snd (fst l)) (snd l)) skeleton_loops = true /\
+  forall ps pre conts, In (ps, pre, conts) skeleton_loops ->
+  forall f p rest r, In f skeleton -> In p (fn_paths f) -> fn_params f = ps ->
+  split_ret p = Some (pre ++ rest, r) ->
+  forall bs, Forall (fun b => In b conts) bs ->
+  forall orc s k, init_ok ps s = true ->
+  match exec true orc (expand (pre ++ concat bs ++ rest) ++ [EReturn r]) s k with
+  | Done s' => balanced ps s' = true
+  | Infeasible => True
+  | Running _ _ => False
+  | Fault _ => False
+  end.
+Proof. split; [exact loops_ok_today | exact today_loops_safe]. Qed.
+Print Assumptions C11_todays_loops_safe.
+
 (* ... and every extracted path of every extracted function on its own (calls as summaries) is
    memory-safe and leak-free under every environment. *)
 Theorem C11_todays_code_safe : forall f p, In f skeleton -> In p (fn_paths f) ->
@@ -167,11 +209,11 @@ Print Assumptions C11_readers_only_safe.
 (* the heap the examples start from: slot 0 (_cache) holds the dictionary 0, which holds the inner
    dictionary 1; two parameter objects 2 and 3 held by the caller through variables 0 and 1 *)
 Definition ex_heap : st :=
-  mkSt [(HSlot 0, 0); (HItem 0, 1); (HVar 0, 2); (HVar 1, 3); (HExt, 2); (HExt, 3)] [] 4 [(0, 2); (1, 3)].
+  mkSt [(HSlot 0, 0); (HItem 0, 1); (HVar 0, 2); (HVar 1, 3); (HExt, 2); (HExt, 3)] [] [] 4 [(0, 2); (1, 3)].
 (* changed() as the environment performs it: the slot is cleared, the freed outer dictionary's
    reference to the inner one is dropped *)
 Definition ex_changed : list estep := [XClearSlot 0; XDecExt 1].
-Definition ex_oracle : oracle := mkOracle (fun _ => ex_changed) (fun _ => 0).
+Definition ex_oracle : oracle := mkOracle (fun _ => ex_changed) (fun _ => 0) (fun _ => (false, [])).
 
 Example ex_heap_ok : init_ok [0; 1] ex_heap = true.
 Proof. vm_compute. reflexivity. Qed.
@@ -240,6 +282,28 @@ Proof. vm_compute. reflexivity. Qed.
 Example skeleton_is_there :
   (23 <=? length skeleton) && (13 <=? length (filter (fun f => 1 <=? length (fn_paths f)) skeleton)) = true.
 Proof. exact skeleton_nonempty. Qed.
+
+(* loops were found *)
+Example loops_were_extracted : 2 <=? length skeleton_loops = true.
+Proof. exact loops_exist. Qed.
+
+(* the three borrow rules at work *)
+Example tuple_item_rule :
+  (* an item of a tuple we own may be used across a may-call point ... *)
+  D true [0] [EFetchTuple 2 0; EMayCall; EUse 2; EReturn None] = true /\
+  (* ... not any more once we gave the tuple up ... *)
+  D true [] [ENewRef 1; EFetchTuple 2 1; EDecref 1; EUse 2; EReturn None] = false /\
+  (* ... and never an item of a tuple we only borrowed *)
+  D true [] [EAssumeSlot 3 true; EFetchSlot 1 3; EFetchTuple 2 1; EUse 2; EReturn None] = false.
+Proof. vm_compute. repeat split; reflexivity. Qed.
+
+Example mutable_container_rule :
+  (* a dictionary value or list item is good only until the next may-call point, however well the
+     container is owned *)
+  D true [0] [EFetchItem 2 0; EUse 2; EReturn None] = true /\
+  D true [0] [EFetchItem 2 0; EMayCall; EUse 2; EReturn None] = false /\
+  D true [0] [EFetchItem 2 0; EIncref 2; EMayCall; EUse 2; EDecref 2; EReturn None] = true.
+Proof. vm_compute. repeat split; reflexivity. Qed.
 
 (* call trees exist: every path of _lookup1, _adapter_hook, _verify, providedBy and IB__call__ inlines
    completely (no call left) *)
